@@ -46,6 +46,17 @@ type mwSpec struct {
 	Side string `json:"side"` // client | server | publisher | subscriber
 	RW   string `json:"rewrite"`
 	K    int64  `json:"k"`
+	// Pad: error-rewriting middleware make their message / annotation this
+	// many bytes long (0 = short), to cover texts around and far above 256 bytes
+	Pad int `json:"error_text_bytes,omitempty"`
+}
+
+// padTo extends s with filler up to n bytes.
+func padTo(s string, n int) string {
+	if n > len(s) {
+		return s + strings.Repeat("m", n-len(s))
+	}
+	return s
 }
 
 // mwErr is an error type of the monitor's own (client-side injections).
@@ -200,8 +211,8 @@ func rwArgs(mw *mwSpec, method string, in []interface{}) []interface{} {
 	return out
 }
 
-func annotate(err error, id string) error {
-	tag := "!" + id
+func annotate(err error, id string, pad int) error {
+	tag := padTo("!"+id, pad)
 	switch e := err.(type) {
 	case *mainsvc.Oops:
 		if e == nil {
@@ -226,7 +237,7 @@ func annotate(err error, id string) error {
 }
 
 func injected(mw *mwSpec, method string) error {
-	msg := "inj:" + mw.ID
+	msg := padTo("inj:"+mw.ID, mw.Pad)
 	if mw.Side == "server" {
 		switch method {
 		case "echo", "nothing":
@@ -309,7 +320,7 @@ func rwRes(mw *mwSpec, method string, in []interface{}) []interface{} {
 		}
 	case rwAnnotate:
 		if err != nil {
-			out[last] = annotate(err, mw.ID)
+			out[last] = annotate(err, mw.ID, mw.Pad)
 		}
 	case rwInject:
 		if err == nil {
